@@ -494,7 +494,7 @@ impl Check for C07 {
     }
     fn budget(&self, tier: Tier) -> Budget {
         match tier {
-            Tier::Quick => Budget { runs: 40_000, wall_s: 60 },
+            Tier::Quick => Budget { runs: 120_000, wall_s: 90 },
             Tier::Thorough => Budget { runs: 1_500_000, wall_s: 600 },
         }
     }
